@@ -27,6 +27,9 @@ SCENARIOS = [  # name, lost (None=no reader actor, False=without error, True=wit
     ("lost_exc_user", True, True, True, 2),
     ("lost_noexc_user", False, True, False, 3),
     ("plain", None, False, False, 4),          # two producer threads and the real poll loop, no faults
+    # the same with a re-entrant producer: the job of message 1, while the pump runs it, queues message 4 itself (what a handler or an
+    # event callback does when it calls add_job / set_child_value) - message 4 takes its place at the END of the queue
+    ("nested", None, False, False, 4),
     ("stop", None, "stop", False, 3),          # the user calls SyncTasks.stop() (disconnect + stop flag) while the pump works
     ("lost_exc_stop", True, "stop", True, 2),
 ]
@@ -114,6 +117,8 @@ def execute(args):
         return t
 
     def reconnect(transport=None):
+        if state.get("starting"):
+            return                      # SyncTasks.start() asks for the first connection: the scenario begins with it in place
         events.append({"a": "reconnect", "c": 0, "m": 0, "who": who()})
         state["kpend"] += 1
 
@@ -133,18 +138,52 @@ def execute(args):
     tr._lock = SLock()
     gw.tasks = TASK.SyncTasks(gw.const, False, None, gw.sensors, tr)
     gw.on_conn_lost = lambda g, e: events.append({"a": "cb_lost", "c": 0, "m": 0, "who": who()})
+    # The poll thread is created by the library's own SyncTasks.start(): threading as seen from mysensors.task hands out a thread
+    # object whose body the scenario's pump actor runs under the scheduler, and which current_thread() names while that actor runs
+    # (a library that treats "called on the poll thread" specially must meet exactly that situation here).
+    class PollThread:
+        def __init__(self, target=None, args=(), **kw):
+            self.target, self.args = target, args
+            state["poll_thread"] = self
+
+        def start(self):
+            pass
+
+    class TaskThreading:
+        Thread = PollThread
+
+        @staticmethod
+        def current_thread():
+            if sched.cur == "pump" and state.get("poll_thread") is not None:
+                return state["poll_thread"]
+            return _threading.current_thread()
+
+        def __getattr__(self, name):
+            return getattr(_threading, name)
+    TASK.threading = TaskThreading()
+    state["starting"] = True
+    try:
+        gw.tasks.start()
+    finally:
+        state["starting"] = False
     proto = tr.protocol
     proto.connection_made(transport_for(Conn(1)))
 
 
-    nprod = 2 if name == "plain" else 1
-    shares = [list(range(1 + k, nmsgs + 1, nprod)) for k in range(nprod)]
+    nprod = 2 if name in ("plain", "nested") else 1
+    nouter = nmsgs - 1 if name == "nested" else nmsgs
+    shares = [list(range(1 + k, nouter + 1, nprod)) for k in range(nprod)]
+
+    def nested_job():
+        gw.tasks.add_job(lambda: f"{nmsgs};255;3;0;6;M\n")
+        events.append({"a": "produce", "c": 0, "m": nmsgs, "who": "pump"})
+        return "1;255;3;0;6;M\n"
 
     def make_producer(k):
         def producer():
             try:
                 for i in shares[k]:
-                    gw.tasks.add_job(lambda i=i: f"{i};255;3;0;6;M\n")
+                    gw.tasks.add_job(nested_job if (name == "nested" and i == 1) else (lambda i=i: f"{i};255;3;0;6;M\n"))
                     events.append({"a": "produce", "c": 0, "m": i, "who": "producer"})
             finally:
                 state["finished"].add(f"producer{k}")
@@ -169,7 +208,11 @@ def execute(args):
 
     def pump():
         try:
-            gw.tasks._poll_queue()              # the real poll loop
+            pt = state.get("poll_thread")
+            if pt is not None:
+                pt.target(*pt.args)             # the body of the thread SyncTasks.start() made: the real poll loop
+            else:
+                gw.tasks._poll_queue()
         finally:
             state["finished"].add("pump")
 
